@@ -358,6 +358,16 @@ func (r *runner) Op(t []string) string {
 			return "bad-op"
 		}
 		return ExtractStepOrder(repoDir())
+	case "lockmode":
+		if len(t) != 1 {
+			return "bad-op"
+		}
+		return ExtractLockModes(repoDir())
+	case "batches":
+		if len(t) != 5 {
+			return "bad-op"
+		}
+		return batches(uint64(h.Atoi(t[1])), int(h.Atoi(t[2])), int(h.Atoi(t[3])), int(h.Atoi(t[4])))
 	case "stress":
 		if len(t) != 5 {
 			return "bad-op"
@@ -564,6 +574,119 @@ func (r *runner) Op(t []string) string {
 		return showPts(ts, vs)
 	}
 	return "bad-op"
+}
+
+// batches: `writers` goroutines each own `series` series and write `rounds` batches (one
+// point per own series per batch, i.e. large multi-key Cache.WriteMulti calls) through the
+// real WritePoints path while one goroutine calls Engine.WriteSnapshot in a loop.  No
+// deletes.  When everything has finished every series is read back: the answer is the
+// number of acknowledged points, how many of them are readable, and the first few lost.
+func batches(seed uint64, writers, series, rounds int) string {
+	if writers < 1 || writers > 8 || series < 1 || series > 4000 || rounds < 1 || rounds > 100 {
+		return "bad-op"
+	}
+	st, err := openStore(false)
+	if err != nil {
+		return "harness-error"
+	}
+	defer st.close()
+	ctx := context.Background()
+	tags := func(w, i int) models.Tags {
+		return models.NewTags(map[string]string{"k": fmt.Sprintf("w%d-s%04d", w, i)})
+	}
+	var failed atomic.Bool
+	var wwg, swg sync.WaitGroup
+	stop := make(chan struct{})
+	eng := st.engine()
+	swg.Add(1)
+	go func() {
+		defer swg.Done()
+		for {
+			select {
+			case <-stop:
+				return
+			default:
+			}
+			eng.WriteSnapshot()
+		}
+	}()
+	for w := 0; w < writers; w++ {
+		wwg.Add(1)
+		go func(w int) {
+			defer wwg.Done()
+			for b := 0; b < rounds; b++ {
+				pts := make([]models.Point, 0, series)
+				for i := 0; i < series; i++ {
+					p, err := models.NewPoint("m", tags(w, i), models.Fields{"v": int64(b)}, time.Unix(0, int64(b+1)))
+					if err != nil {
+						failed.Store(true)
+						return
+					}
+					pts = append(pts, p)
+				}
+				if err := st.st.WriteToShard(ctx, 1, pts); err != nil {
+					failed.Store(true)
+					return
+				}
+			}
+		}(w)
+	}
+	done := make(chan struct{})
+	go func() { wwg.Wait(); close(done) }()
+	select {
+	case <-done:
+	case <-time.After(70 * time.Second):
+		close(stop)
+		return "timeout"
+	}
+	close(stop)
+	swg.Wait()
+	if failed.Load() {
+		return "err"
+	}
+	// quiescent: every acknowledged point must be readable
+	acked, readable := writers*series*rounds, 0
+	var lost []string
+	sh := st.st.Shard(1)
+	for w := 0; w < writers; w++ {
+		for i := 0; i < series; i++ {
+			ci, err := sh.CreateCursorIterator(ctx)
+			if err != nil {
+				return "err"
+			}
+			cur, err := ci.Next(ctx, &cursors.CursorRequest{Name: []byte("m"), Tags: tags(w, i), Field: "v",
+				Ascending: true, StartTime: models.MinNanoTime, EndTime: models.MaxNanoTime})
+			if err != nil {
+				return "err"
+			}
+			got := map[int64]int64{}
+			if cur != nil {
+				ic, ok := cur.(cursors.IntegerArrayCursor)
+				if !ok {
+					cur.Close()
+					return "err"
+				}
+				for {
+					a := ic.Next()
+					if a.Len() == 0 {
+						break
+					}
+					for j := range a.Timestamps {
+						got[a.Timestamps[j]] = a.Values[j]
+					}
+				}
+				ic.Close()
+			}
+			for b := 0; b < rounds; b++ {
+				if v, ok := got[int64(b+1)]; ok && v == int64(b) {
+					readable++
+				} else if len(lost) < 4 {
+					lost = append(lost, fmt.Sprintf("w%d-s%04d:%d", w, i, b+1))
+				}
+			}
+		}
+	}
+	return fmt.Sprintf("acked=%d readable=%d lost=%s", acked, readable, h.Join(lost))
 }
 
 // stress runs a free-running concurrent workload on a fresh real shard with the
@@ -887,10 +1010,10 @@ func gen(r *h.Rand, tier string, emit func([]string)) {
 	// the lock-order / step-order case, from the current source
 	edges, _, _, _, err := ExtractLockOrder(repoDir())
 	if err != nil {
-		emit([]string{"lockorder !extract-failed", "steporder"})
+		emit([]string{"lockorder !extract-failed", "steporder", "lockmode"})
 	} else {
 		sort.Strings(edges)
-		emit([]string{"lockorder " + h.Join(edges), "steporder"})
+		emit([]string{"lockorder " + h.Join(edges), "steporder", "lockmode"})
 	}
 	n := 110
 	if tier == "thorough" {
@@ -898,6 +1021,14 @@ func gen(r *h.Rand, tier string, emit func([]string)) {
 	}
 	for i := 0; i < n; i++ {
 		emit(genSchedule(r))
+	}
+	// large multi-key write batches racing a WriteSnapshot loop, then a quiescent full read
+	nb := 3
+	if tier == "thorough" {
+		nb = 12
+	}
+	for i := 0; i < nb; i++ {
+		emit([]string{fmt.Sprintf("batches %d %d %d %d", r.Intn(1000000), 3+r.Intn(2), 500+100*r.Intn(4), 8+r.Intn(5))})
 	}
 	// free-running concurrent histories (supporting evidence; thorough tier only: their schedules cannot be replayed)
 	ns := 0
@@ -933,6 +1064,7 @@ func main() {
 		fmt.Println("self-nesting:", selfs)
 		fmt.Println("unresolved:", unres)
 		fmt.Println("steporder:", ExtractStepOrder(repo))
+		fmt.Println("lockmode:", ExtractLockModes(repo))
 		return
 	}
 	h.Main(h.Harness{Gen: gen, NewCase: newCase, OpTimeout: 90 * time.Second})
